@@ -622,13 +622,13 @@ impl Hooks for ThreadHooks {
             let now = self.sched.now();
             let slack = self.sched.my_credit().saturating_sub(credit0);
             let dl = dl.saturating_add(slack);
-            if now.saturating_add(t) > dl + Duration::from_nanos(1) {
+            if now.saturating_add(t) > dl.saturating_add(Duration::from_nanos(1)) {
                 self.sched.violate(
                     "C08",
                     "waits_past_timeout",
                     format!(
                         "a blocking call that must return by {dl:?} starts a wait of {t:?} at {now:?} (it would sleep until {:?})",
-                        now + t
+                        now.saturating_add(t)
                     ),
                 );
             }
